@@ -236,8 +236,11 @@ def py_strip(data):
 NAMES = ["g", "grp", "a'b", "/", "é", "中文", "\U0001f600", "", " ", "x/y'z", "''", "Grp", "g2", "0", "é́",
          "a\nb", "'", "//", "long name with spaces"]
 PNAMES = ["p", "prop", "unit_string", "wf_increment", "é", "中", "", "a'b", "NI_x", "P", "description",
-          "\U0001f600k", "wf_start_time"]
+          "\U0001f600k", "wf_start_time", "p\x00", "unit_string\x00"]
 TEXTS = ["", "a", "abc", "é", "中文字", "\U0001f600", "a'b/c", "line\nbreak", "x" * 40, " ", "é́", "nul\x00mid"]
+# text ending in NUL: allowed wherever the text does not pass through a fixed-width NumPy unicode array (property
+# values, property names, object arrays of strings)
+TEXTS_NUL = TEXTS + ["end\x00", "\x00", "a\x00\x00"]
 INT_PROPS = sorted({0, 1, -1, 5, 127, 128, -128, -129, 2 ** 31 - 1, 2 ** 31, 2 ** 31 + 1, -2 ** 31, -2 ** 31 - 1,
                     -2 ** 31 + 1, 2 ** 32, 2 ** 63 - 1, 2 ** 63, 2 ** 63 + 1, -2 ** 63, -2 ** 63 + 1, 2 ** 64 - 1,
                     123456789012, -987654321098})
@@ -332,7 +335,7 @@ def gen_prop(rng, cfg):
     if c < 0.41:
         return ["npbool", bool(rng.randint(0, 1))]
     if c < 0.53:
-        return ["str", rng.choice(TEXTS)]
+        return ["str", rng.choice(TEXTS_NUL)]
     if c < 0.535 and cfg["rejects"]:
         return ["bytes", rng.choice(["", "6162"])]
     if c < 0.66:
@@ -352,7 +355,7 @@ def gen_prop(rng, cfg):
         if w == "DoubleFloat":
             return ["wrapper", [w, special_bytes(rng, "float64", 1).hex()]]
         if w == "String":
-            return ["wrapper", [w, rng.choice(TEXTS)]]
+            return ["wrapper", [w, rng.choice(TEXTS_NUL)]]
         if w == "Boolean":
             return ["wrapper", [w, bool(rng.randint(0, 1))]]
         return ["wrapper", [w, gen_ms_datetime(rng)]]
@@ -405,7 +408,7 @@ def gen_data(rng, spec, cfg):
         how = spec["as"]
         if n == 0:
             return {"kind": "empty", "of": "objarray"}
-        vals = [rng.choice(TEXTS) for _ in range(n)]
+        vals = [rng.choice(TEXTS_NUL if how == "objarray" else TEXTS) for _ in range(n)]
         return {"kind": "strlist", "vals": vals, "as": how}
     if kind == "datetimes":
         how = spec["as"]
